@@ -20,6 +20,7 @@ import re
 from chameleon.exc import LanguageError
 from chameleon.namespaces import XMLNS_NS
 from chameleon.parser import groups
+from chameleon.utils import decode_htmlentities
 from chameleon.utils import descriptorint
 from chameleon.utils import descriptorstr
 
@@ -33,6 +34,11 @@ SUBST_RE = re.compile(r"\s*(?:(text|structure)\s+)?(.*)\Z", re.S | re.UNICODE)
 ATTR_RE = re.compile(r"\s*([^\s{}'\"]+)\s+([^\s].*)\Z", re.S | re.UNICODE)
 
 ENTITY_RE = re.compile(r'(&(#?)(x?)(\d{1,5}|\w{1,8});)')
+
+# Statements made of parts separated by ``;``: they are split on the text
+# as it is written, the character entities of each part are decoded after
+# the split.
+MULTIPART = frozenset(["define", "repeat", "attributes"])
 
 WHITELIST = frozenset([
     "define",
@@ -97,6 +103,7 @@ def parse_attributes(clause):
             name, expr = None, part.strip()
         else:
             name, expr = groups(m, part)
+        expr = decode_htmlentities(expr)
 
         if name in seen:
             raise LanguageError(
@@ -163,6 +170,7 @@ def parse_defines(clause):
             raise LanguageError("Invalid define syntax", part)
         context, name, expr = groups(m, part)
         context = context or "local"
+        expr = decode_htmlentities(expr)
 
         if name.startswith('('):
             names = [n.strip() for n in name.strip('()').split(',')]
